@@ -8,7 +8,11 @@ from visions.types.integer import Integer
 @Integer.register_relationship(Float, np.ndarray)
 @array_handle_nulls
 def float_is_integer(series: np.ndarray, state: dict) -> bool:
-    return bool(np.all(np.mod(series, 1) == 0))
+    # whole numbers that an int64 can hold: astype(int) wraps around silently beyond that
+    return bool(
+        np.all(np.mod(series, 1) == 0)
+        and np.all((series >= -(2.0**63)) & (series < 2.0**63))
+    )
 
 
 # TODO: The array_handle_nulls is actually removing nulls from the result. This is _far_ from ideal but there is no
